@@ -42,6 +42,14 @@ Proof.
     rewrite X. destruct (bl =? 0); reflexivity.
 Qed.
 
+Lemma respond_E_own c r ro bl bp s : dstate s = SService r -> Ctx c s -> E c s (respond c r ro bl bp s).
+Proof.
+  intros D C. destruct (send_response_E_own c r (if hfail s =? 0 then 200 else hfail s) ro bl bp s D C) as [C1 [l [T Q]]].
+  split.
+  - revert C1. apply Ctx_frame; reflexivity.
+  - exists l. split; [rewrite respond_trace; exact T|exact Q].
+Qed.
+
 (* error responses carry no request *)
 Lemma send_response_E_none c st ro bl bp s : E c s (send_response c None st ro bl bp s).
 Proof.
@@ -65,7 +73,7 @@ Proof.
   assert (E01 : E c s s1).
   { split; [exact C1|]. apply ext_one with (e := TStart r); [rewrite F; exact T0|reflexivity]. }
   destruct out as [[[k b] p]|]; [|exact E01].
-  eapply E_trans; [exact E01|]. apply send_response_E_own; assumption.
+  eapply E_trans; [exact E01|]. apply respond_E_own; assumption.
 Qed.
 
 Lemma decode_loop_E c : fx_ctx (fx c) = true -> forall fuel s upd, Ctx c s -> E c s (fst (decode_loop fuel c s upd)).
@@ -127,7 +135,7 @@ Qed.
 
 Lemma poll_response_E c : fx_ctx (fx c) = true -> forall fuel s, Ctx c s -> E c s (poll_response fuel c s).
 Proof.
-  intros FX. induction fuel as [|f IH]; intros s C; cbn [poll_response].
+  intros FX. induction fuel as [|f IH]; intros s C; cbn [poll_response]; rewrite ?body_if.
   - apply E_same; [|reflexivity]. revert C; apply Ctx_frame; reflexivity.
   - destruct (dstate s) eqn:Ed.
     + destruct (draining s).
@@ -153,7 +161,7 @@ Proof.
       assert (C1 : Ctx c s1) by (rewrite F; revert C; apply Ctx_frame; reflexivity).
       assert (E1 : E c s s1) by (apply E_same; [exact C1|rewrite F; reflexivity]).
       destruct out as [[[k b] p]|].
-      * pose proof (send_response_E_own c r 200 k b p s1 D1 C1) as E2.
+      * pose proof (respond_E_own c r k b p s1 D1 C1) as E2.
         eapply E_trans; [exact E1|]. eapply E_trans; [exact E2|]. apply IH. apply E2.
       * destruct (poll_request c s1) as [s2 upd] eqn:P2.
         pose proof (poll_request_E c s1 FX C1) as E2. rewrite P2 in E2. cbn in E2.
